@@ -13,7 +13,7 @@ import (
 
 func newVC(e *Engine, fn *ssa.Function, known map[string]Sort, unmod map[string]map[string]bool) *VC {
 	vc := &VC{eng: e, U: NewUniverse(), fn: fn, declared: map[string]bool{}, heapSorts: map[string]Sort{}, known: map[string]Sort{}, loopUnmod: unmod,
-		loopUnmodNext: map[string]map[string]bool{}, notes: map[string]bool{}, externals: map[string]bool{}, inlined: map[string]bool{}, nameCount: map[string]int{}, defs: map[string]Term{}, faddrSeen: map[string]Term{}, unsup: map[string]bool{}, heapAlloc: map[string]Term{}}
+		loopUnmodNext: map[string]map[string]bool{}, notes: map[string]bool{}, externals: map[string]bool{}, inlined: map[string]bool{}, nameCount: map[string]int{}, defs: map[string]Term{}, faddrSeen: map[string]Term{}, unsup: map[string]bool{}, mapKeys: map[string][]Term{}, heapAlloc: map[string]Term{}}
 	for k, v := range known {
 		vc.known[k] = v
 	}
